@@ -184,6 +184,22 @@ def run(ctx):
                 one_schedule(ctx, img, meta, progs, seq, S.preempt_policy({s: 0}), False, label, dict(rep0, preempt={s: 0}))
                 if len(ctx.violations) > before + 2:
                     break
+            # one pre-emption at distinct source lines of the shared in-memory tree (see C18), for the two fixed programs; thorough: all programs
+            if pi in (0, 1) or ctx.tier == "thorough":
+                scb = S.Sched(len(progs), S.preempt_policy({}))
+                scb.record_kinds = True
+                fb, _ = mount_rw(img, scb)
+                S.run_threads(scb, [lambda p=p: do_ops(fb, p) for p in progs], pyfat_dir=PYFAT_DIR, line_mode=True, timeout=60)
+                for t in range(len(progs)):
+                    lines = [k for k in scb.kinds.get(t, {}) if k.startswith("line:") and k.split(":")[1] in C18.TREE_FUNCS]
+                    cap_l = ctx.scale(40, 400)
+                    if len(lines) > cap_l:
+                        lines = rng.sample(lines, cap_l)
+                    for k in lines:
+                        one_schedule(ctx, img, meta, progs, seq, S.kind_preempt_policy(t, k, first=t), True, label, dict(rep0, line_preempt=[t, k]))
+                        ctx.dist["line-preemption"] += 1
+                        if len(ctx.violations) > before + 4:
+                            break
             for k in range(ctx.scale(8, 100)):
                 seed = rng.randrange(1 << 30)
                 one_schedule(ctx, img, meta, progs, seq, S.random_policy(random.Random(seed), p=rng.choice([0.02, 0.1])), True, label, dict(rep0, line_level_seed=seed))
